@@ -1,2 +1,27 @@
-(** C04 placeholder *)
-From GoSh Require Import Base.Bytes.
+(** C04 — Every recorded position designates the token it documents. *)
+From GoSh Require Import Base.Bytes Lex.Cursor.
+
+(** The line/column bookkeeping of read(): after consuming any rune sequence the cursor is the
+    character position that follows it (lines and columns count characters, not bytes; a newline
+    starts a new line at column 1).  mark(off) records cursor + off, so every position taken
+    outside an alias is the character position of a point of the consumed text. *)
+Theorem C04_cursor_is_position_of_consumed_prefix :
+  forall p c, let c' := fold_left rd p c in (line c', col c') = pos_of p (line c) (col c).
+Proof. exact cursor_correct. Qed.
+Print Assumptions C04_cursor_is_position_of_consumed_prefix.
+
+(** Look-ahead is undone exactly: one unread() after one read() restores the position. *)
+Theorem C04_unread_undoes_read :
+  forall c r, (1 <= col c)%nat -> let c' := unrd (rd c r) in line c' = line c /\ col c' = col c.
+Proof. exact unread_undoes_read. Qed.
+Print Assumptions C04_unread_undoes_read.
+
+(** Within a line the column advances by one per character, whatever its encoded length. *)
+Theorem C04_columns_count_characters :
+  forall q l c, forallb (fun r => negb (N.eqb r 10)) q = true -> pos_of q l c = (l, (c + length q)%nat).
+Proof. exact pos_of_line. Qed.
+Print Assumptions C04_columns_count_characters.
+
+(** Not proved: that each of the ~40 mark() call sites uses the offset of the token it documents,
+    and the derived Pos()/End() methods of ast.go.  Decided on every run by the intrinsic checker on
+    the implementation's (source, AST) pairs.  Known finding F28 (here-document extent) is listed. *)
